@@ -398,6 +398,7 @@ func genTmplCase(r *Rng, out *outFiles) {
 	if r.Chance(2) {
 		name = "nosuch.html"
 	}
+	noteInput(renderCase(cfg, ts.Files, name, runs))
 	line, rs := implRender(cfg, ts.Files, name, runs)
 	var c16, c05, c12, c02, c08, c15 string
 	if strings.Contains(line, "PANIC") {
@@ -440,7 +441,7 @@ func genTmplCase(r *Rng, out *outFiles) {
 		}
 		files2 := make([][2]string, len(ts.Files))
 		copy(files2, ts.Files)
-		g2 := &tmplGen{r: NewRng(1, 1), ap: cfg.ap, tp: cfg.tp}
+		g2 := &tmplGen{r: auxRng(1, 1), ap: cfg.ap, tp: cfg.tp}
 		_ = g2
 		// re-print main with reordered attributes; fragments keep their layout only if they are in main:
 		// simpler and exact: rebuild every file text by replacing the printed trees
